@@ -44,6 +44,19 @@ class Unique:
         return val
 
 
+def para_header():
+    '''Header of a parallel run (as ttsSimplePacket20.d.PARA of the tests).'''
+    return ('\n=====================================================\n'
+            ' HOSTNAME : synthetic\n\n number of tasks is : 8\n\n'
+            '=====================================================\n'
+            ' data filename = synthetic.d\n catalogname = synthetic\n\n'
+            'GEOMETRY\nTITRE synthetic listing\nFINGEOM\n\n'
+            ' SIMULATION\n BATCH 1000\n SIZE 100\n FIN_SIMULATION\n\n'
+            ' Loading response functions ...\n\n'
+            ' initialization time (s): 3\n\n\n'
+            'Scorer time info\n elapsed time (s): 6\n\n')
+
+
 def header():
     return ('\n=====================================================\n'
             ' data filename = synthetic.d\n catalogname = synthetic\n\n'
@@ -65,7 +78,16 @@ def batch_lines(lo, hi):
     return ''.join(out)
 
 
-def edition_head(batch):
+def edition_head(batch, para=False):
+    if para:
+        # the batch number is not printed in parallel mode
+        return ('\n*****************************************************'
+                '****\n\n'
+                ' RESULTS ARE GIVEN FOR SOURCE INTENSITY : unavailable\n'
+                '*****************************************************'
+                '****\n\n\n'
+                ' Mean weight leakage = 7.111140e+02\t sigma = '
+                '4.388024e+00\t sigma% = 6.170634e-01\n\n\n\n')
     return ('*********************************************************\n\n'
             ' RESULTS ARE GIVEN FOR SOURCE INTENSITY : 1.000000e+00\n'
             '*********************************************************\n\n\n'
@@ -84,11 +106,13 @@ def response_head(resp):
     return '\n'.join(lines) + '\n'
 
 
-def spectrum_block(edges, scores, sigmas, decreasing, used, integrated):
+def spectrum_block(edges, scores, sigmas, decreasing, used, integrated,
+                   discarded=0):
     '''One SPECTRUM RESULTS block; `edges` increasing, `scores[i]` for
     (edges[i], edges[i+1]).'''
+    used -= discarded
     out = ['\t SPECTRUM RESULTS\n',
-           '\t number of first discarded batches : 0\n\n',
+           f'\t number of first discarded batches : {discarded}\n\n',
            '\t group (MeV) \t\t score   \t sigma_% \t score/lethargy\n\n']
     idx = list(range(len(scores)))
     if decreasing:
@@ -101,7 +125,8 @@ def spectrum_block(edges, scores, sigmas, decreasing, used, integrated):
     out.append('\n')
     if integrated is not None:
         out.append('\t ENERGY INTEGRATED RESULTS\n\n'
-                   '\t number of first discarded batches : 0\n\n')
+                   f'\t number of first discarded batches : {discarded}'
+                   '\n\n')
         if integrated == 'not_converged':
             out.append('\t NOT YET CONVERGED \n')
         else:
@@ -111,8 +136,34 @@ def spectrum_block(edges, scores, sigmas, decreasing, used, integrated):
     return ''.join(out)
 
 
+def mesh_block(zone):
+    '''Results on a mesh (cells (i,0,0)), one block of cells per energy range
+    (layout of the shipped tungstene / box_dyn / entropy listings), each
+    possibly followed by the entropies of the sources.'''
+    out = ['\t scoring mode : SCORE_COLL\n',
+           '\t scoring zone : \t Results on a mesh: \n',
+           '\t Cell   \t  tally   \t  sigma (percent)\n\n\n']
+    idx = list(range(len(zone['edges']) - 1))
+    if zone['decreasing']:
+        idx.reverse()
+    for i in idx:
+        lo, hi = zone['edges'][i], zone['edges'][i + 1]
+        first, second = (hi, lo) if zone['decreasing'] else (lo, hi)
+        out.append(f'Energy range (in MeV): {fmt(first)} - {fmt(second)}\n')
+        for cnum, (score, sigma) in enumerate(zone['cells'][i]):
+            out.append(f'\t ({cnum},0,0)\t {fmt(score)}\t{fmt(sigma)}\n')
+        out.append('\n')
+        if zone['entropies'] is not None:
+            boltz, shan = zone['entropies'][i]
+            out.append(f' \t Boltzmann Entropy of sources = {fmt(boltz)}\n'
+                       f'\t Shannon Entropy of sources = {fmt(shan)}\n\n')
+    return ''.join(out)
+
+
 def zone_block(zone, used):
     '''Scoring zone with its spectra (possibly one per time / mu step).'''
+    if zone.get('mesh'):
+        return mesh_block(zone)
     out = ['\t scoring mode : SCORE_TRACK\n',
            f'\t scoring zone : \t Volume \t num of volume : {zone["id"]}\n',
            '\t Volume in cm3: 1.000000e+00\n\n\n']
@@ -132,7 +183,8 @@ def zone_block(zone, used):
                        f'\t\t mu max. = {fmt(step["hi"])}\n\n')
         out.append(spectrum_block(zone['edges'], step['scores'],
                                   step['sigmas'], zone['decreasing'], used,
-                                  step['integrated']))
+                                  step['integrated'],
+                                  zone.get('discarded', 0)))
         out.append('\n')
     return ''.join(out)
 
@@ -145,6 +197,9 @@ def gen_truth(rng):
     editions = []
     nresp = rng.randint(1, 4)
     layout = []
+    # a parallel run: the editions do not print their batch number, the
+    # scanner takes the greatest "number of batches used" of the edition
+    para = rng.random() < 0.2
     for ridx in range(nresp):
         ngroups = rng.choice([1, 2, 3, 4, 6])
         start = rng.choice([1e-11, 1e-5, 0.5])
@@ -161,7 +216,15 @@ def gen_truth(rng):
         zones = sorted(rng.sample(range(1, 30), rng.randint(1, 3)))
         if rng.random() < 0.5:
             zones.reverse()
-        layout.append({'function': rng.choice(['FLUX', 'REACTION',
+        mesh = None
+        if rng.random() < 0.25 and not para:
+            # results on a mesh instead of volumes
+            mesh = {'ncells': rng.randint(1, 3),
+                    'entropy': rng.random() < 0.6}
+            step_kind, bounds = None, [0.0, 1.0]
+            zones = [None]
+        layout.append({'mesh': mesh,
+                       'function': rng.choice(['FLUX', 'REACTION',
                                                'COURANT']),
                        'name': f'resp_{ridx}', 'decoupage': f'DEC_{ridx}',
                        'score_name': rng.choice([None, f'score_{ridx}']),
@@ -170,12 +233,28 @@ def gen_truth(rng):
                        'zones': zones,
                        'steps_decreasing': (step_kind is not None
                                             and rng.random() < 0.4),
-                       'integrated': rng.choice(['yes', 'yes', 'no',
-                                                 'not_converged'])})
+                       'integrated': 'yes' if para else rng.choice(
+                           ['yes', 'yes', 'no', 'not_converged'])})
     for batch in batches:
         resps = []
         for lay in layout:
             zones = []
+            if lay['mesh']:
+                ngr = len(lay['edges']) - 1
+                cells = [[(uniq.score(), uniq.sigma())
+                          for _ in range(lay['mesh']['ncells'])]
+                         for _ in range(ngr)]
+                cells = [[(sc, 0.0 if sc == 0.0 else sg) for sc, sg in grp]
+                         for grp in cells]
+                entr = None
+                if lay['mesh']['entropy']:
+                    entr = [(abs(uniq.score(False)), abs(uniq.score(False)))
+                            for _ in range(ngr)]
+                resps.append(dict(lay, zone_data=[{
+                    'id': None, 'mesh': True, 'edges': lay['edges'],
+                    'decreasing': lay['decreasing'], 'cells': cells,
+                    'entropies': entr}]))
+                continue
             for zid in lay['zones']:
                 steps = []
                 for snum in range(len(lay['bounds']) - 1):
@@ -199,30 +278,44 @@ def gen_truth(rng):
                 for step in steps:     # zero score => zero sigma, as T4 does
                     step['sigmas'] = [0.0 if sc == 0.0 else sg for sc, sg in
                                       zip(step['scores'], step['sigmas'])]
-                zones.append({'id': zid, 'edges': lay['edges'],
+                discarded = 0
+                if para and not (lay is layout[-1]
+                                 and zid == lay['zones'][-1]):
+                    # some scores discard their first batches (never the
+                    # last one printed: it carries the number of the edition)
+                    discarded = rng.choice([0, 0, 1, 3, batch - 2])
+                zones.append({'id': zid, 'discarded': discarded,
+                              'edges': lay['edges'],
                               'decreasing': lay['decreasing'],
                               'steps_decreasing': lay['steps_decreasing'],
                               'step_kind': lay['step_kind'], 'steps': steps})
             resps.append(dict(lay, zone_data=zones))
         editions.append({'batch': batch, 'responses': resps})
-    return {'editions': editions, 'normal_end': rng.random() < 0.8}
+    return {'editions': editions, 'para': para,
+            'normal_end': True if para else rng.random() < 0.8}
 
 
 def write_listing(truth):
-    out = [header()]
+    para = truth.get('para', False)
+    out = [para_header() if para else header()]
     prev = 0
     simtime = 0
     for edi in truth['editions']:
-        out.append(batch_lines(prev + 1, edi['batch']))
+        if not para:
+            out.append(batch_lines(prev + 1, edi['batch']))
         prev = edi['batch']
-        out.append(edition_head(edi['batch']))
+        out.append(edition_head(edi['batch'], para))
         for resp in edi['responses']:
             out.append(response_head(resp))
             for zone in resp['zone_data']:
                 out.append(zone_block(zone, edi['batch']))
             out.append('\n\n')
         simtime += 7
-        out.append(f' simulation time (s) : {simtime}\n\n\n')
+        if para:
+            out.append(f' simulation time (s): {simtime}\n\n'
+                       f' elapsed time (s): {simtime + 100}\n\n\n')
+        else:
+            out.append(f' simulation time (s) : {simtime}\n\n\n')
     if truth['normal_end']:
         out.append('\n=====================================================\n'
                    '\tNORMAL COMPLETION\n'
